@@ -33,10 +33,10 @@ func init() {
 		ID:        "C07",
 		Level:     "exploration",
 		Technique: "history monitor over real executions: generated chains on two real replicas (real application, mempool, stores), an attacker re-using inputs at every position, accept/reject log, and an offline oracle over the committed chain read back from the block store",
-		Rule: "case = one generated chain of 5-8 blocks on a proposer and a validator replica with honest traffic (transfers, account->hidden, hidden->hidden with ring size 1 and >1, hidden->account, out-of-order nonces), " +
-			"and per round an attacker trying: the same key image twice in one tx; a second spend of a pooled input; a re-spend / literal replay of an input committed earlier (same and changed ring size); replays of committed and pooled account txs; new txs at used nonces; " +
-			"hand-built blocks (valid proposal with an edited tx list, NumTxs/TotalTxs/DataHash recomputed; if the validator's own execution of the list succeeds the block is re-issued with exactly the result fields that execution produced) containing each of these plus nonce gaps, reordered nonces, a tx listed twice; " +
-			"the same against nodes re-opened over their databases. oracle: every attempt is refused (pool AddTx, CheckTx, CheckBlock) and, over the chain read back from the block store of every node, no key image repeats, every sender's executed nonces are n0,n0+1,..., no tx hash repeats, state nonce = end of sequence; pool snapshots never hold two txs with one key image. " +
+		Rule: "case = one generated chain of 5-8 blocks on a proposer and a validator replica (optionally receiving the traffic by gossip) with honest traffic: transfers, token transfers, account->hidden, hidden->hidden with ring size 1 and 2-6, hidden->account, out-of-order nonce submission, late arrivals that stay pooled across a commit; " +
+			"per round an attacker tries: the same key image twice in one tx (really signed, commitments balanced); a second spend of a pooled input; a re-spend / literal replay of an input committed earlier, each with the same and with a changed ring size (1 <-> larger); replays of committed and of pooled account txs; new txs / account inputs at used nonces; key images outside the prime-order subgroup; " +
+			"hand-built blocks of a Byzantine proposer (valid proposal with an edited tx list, NumTxs/TotalTxs/DataHash recomputed; if the validator's own execution of the list succeeds, the block is re-issued with exactly the result fields that execution produced) containing each of these plus nonce gaps, reordered / swapped nonces, a transfer and an account input sharing one nonce, a tx listed twice; positive controls (one more VALID tx) must be executed and accepted; " +
+			"all of it again against nodes re-opened over their databases (fresh pool, empty dedup cache). oracle: every attempt is refused (pool AddTx, CheckTx basic/state, CheckBlock) - the error class is recorded and floors count only refusals with the class of the attacked mechanism - and, over the chain read back from the block store of every node: no key image repeats, every sender's executed nonces are n0,n0+1,..., no tx hash repeats, state nonce = end of the sequence; pool snapshots never hold two txs with one key image. " +
 			"non-trivial = >=1 confidential spend committed, a restart happened, and >=8 distinct (position, attack) pairs were attempted; distinct by hash of the committed tx hashes and the attempt log",
 		Assumptions: []string{
 			"the link-time stand-in for libxcrypto (DESIGN.md §2) provides ring signatures / MLSAG / key images with the real algebraic structure; its soundness is not the subject",
